@@ -62,7 +62,7 @@ func c07Alphabet(thorough bool) []val {
 	for _, i := range []int64{math.MinInt64, -p53 - 1, -p53, -1, 0, 1, 2, 4, p53, p53 + 1, math.MaxInt64 - 1, math.MaxInt64} {
 		vs = append(vs, vInt(i))
 	}
-	for _, f := range []float64{math.Inf(-1), -9.3e18, -float64(p53), -1.5, math.Copysign(0, -1), 0.0, 0.5, 1.0, 2.0, 4.0, float64(p53), float64(p53) + 2, 9.223372036854775807e18, 9.3e18, math.Inf(1)} {
+	for _, f := range []float64{math.Inf(-1), -9.3e18, -9.223372036854775808e18, -float64(p53), -1.5, math.Copysign(0, -1), 0.0, 0.5, 1.0, 2.0, 4.0, float64(p53), float64(p53) + 2, 9.223372036854775807e18, 9.3e18, math.Inf(1)} {
 		vs = append(vs, vReal(f))
 	}
 	for _, s := range []string{"", "A", "a", "ab", "b", "é", "\U00010000"} {
@@ -75,7 +75,7 @@ func c07Alphabet(thorough bool) []val {
 		for _, i := range []int64{math.MinInt64 + 1, -(int64(1) << 62), -4, -3, -2, 3, 8, 16, 255, 256, 4096, 1 << 31, 1 << 32, (1 << 53) - 1, (1 << 62), (1 << 62) + 1} {
 			vs = append(vs, vInt(i))
 		}
-		for _, f := range []float64{-9.223372036854775808e18, -9.223372036854777e18, -4.0, -2.5, -1.0, -0.5, math.SmallestNonzeroFloat64, 1.5, 3.0, 3.0000000000000004, 8.0, 4096.0, float64(p53) - 1, 4.611686018427388e18, 9.223372036854774e18, math.MaxFloat64} {
+		for _, f := range []float64{-9.223372036854777e18, -4.0, -2.5, -1.0, -0.5, math.SmallestNonzeroFloat64, 1.5, 3.0, 3.0000000000000004, 8.0, 4096.0, float64(p53) - 1, 4.611686018427388e18, 9.223372036854774e18, math.MaxFloat64} {
 			vs = append(vs, vReal(f))
 		}
 		for _, s := range []string{" ", "0", "1", "1.0", "aa", "a\x00", "B", "z", "\u00e9a", "\uffff"} {
